@@ -138,7 +138,7 @@ fn run(sc: &Value) -> Value {
 }
 
 fn main() {
-    std::panic::set_hook(Box::new(|_| {}));
+    std::panic::set_hook(Box::new(|info| { eprintln!("panic: {}", info); }));
     let mut inp = String::new();
     std::io::stdin().read_to_string(&mut inp).unwrap();
     let scs: Value = serde_json::from_str(&inp).unwrap();
